@@ -308,6 +308,84 @@ def body_outside(case, ctx):
 
 # ---------------------------------------------------------------------------
 @st.composite
+def pair_polygon_case(draw):
+    n = draw(st.integers(1, 4))
+    shape = draw(gen.shapes(max_rank=2))
+    k = draw(st.integers(3, 5))
+    cnt = gen.prod(shape)
+    # homogeneous vertex coordinates; the chart-0 coordinate of each polygon is of one sign,
+    # of both signs, or has an exact zero
+    polys, kinds = [], []
+    for _ in range(cnt):
+        kind = draw(st.sampled_from(["positive", "negative", "mixed", "zero", "zero"]))
+        rows = []
+        for v in range(k):
+            x0 = draw(scalars_nz(0.05, 5.0))
+            x0 = abs(x0) if kind in ("positive", "zero") else -abs(x0) if kind == "negative" \
+                else (abs(x0) if v % 2 else -abs(x0))
+            rows.append([x0] + draw(coords(n)))
+        if kind == "zero":
+            rows[draw(st.integers(0, k - 1))][0] = 0.0
+        polys.append(rows)
+        kinds.append(kind)
+    return dict(n=n, shape=shape, k=k, polys=polys, kinds=kinds,
+                chart=draw(st.integers(0, n)))
+
+
+def body_pair_polygon(case, ctx):
+    """the chart accessors of objects made of several points: a pair's endpoints in the
+    requested chart, and whether a polygon lies in the standard chart - it does exactly when
+    no vertex has chart coordinate zero and all have it of one sign (so that the affine
+    picture of the polygon is the polygon)"""
+    n, shape, k, i = case["n"], tuple(case["shape"]), case["k"], case["chart"]
+    V = np.array(case["polys"], dtype=float).reshape(shape + (k, n + 1))
+    _labels(ctx, n, shape, False, i)
+    for kd in set(case["kinds"]):
+        ctx.label("x0=" + kd)
+    Pg = projective.Polygon(_hp(V))
+    x0 = V[..., 0]
+    want = np.all(x0 > 0, axis=-1) | np.all(x0 < 0, axis=-1)
+    got = Pg.in_standard_chart()
+    ctx.check(np.shape(got) == shape and np.array_equal(np.asarray(got, dtype=bool), want),
+              "Polygon.in_standard_chart() <=> every vertex has a non-zero chart coordinate "
+              "of one sign", got=got, want=want, x0=x0)
+    # a polygon reported inside has affine coordinates (and one reported outside because of a
+    # zero has none)
+    for idx in (np.ndindex(*shape) if shape else [()]):
+        one = projective.Polygon(V[idx].copy())
+        try:
+            aff = one.affine_coords(chart_index=0)
+            raised = False
+        except GeometryError:
+            raised = True
+        ctx.check(raised == bool(np.any(x0[idx] == 0)), "affine_coords of a polygon raises "
+                  "exactly when a vertex has chart coordinate 0", raised=raised, x0=x0[idx])
+        if want[idx]:
+            ctx.check(not raised, "a polygon reported in the standard chart has affine "
+                      "coordinates there")
+            _cmp_finite(ctx, "affine coordinates of the vertices", aff, chart_of(V[idx], 0))
+    # pairs: consecutive vertices, read in chart i
+    A, B = V[..., 0, :], V[..., 1, :]
+    pair = projective.PointPair(_hp(A), _hp(B))
+    ok = np.all(A[..., i] != 0) and np.all(B[..., i] != 0)
+    try:
+        e = pair.endpoint_affine_coords(chart_index=i)
+        raised = False
+    except GeometryError:
+        raised = True
+    ctx.check(raised == (not ok), "endpoint_affine_coords(chart_index=i) raises exactly when an "
+              "endpoint has chart coordinate 0", raised=raised, i=i)
+    if not raised:
+        ctx.check(np.shape(e) == shape + (2, n), "endpoint_affine_coords shape",
+                  got=np.shape(e))
+        _cmp_finite(ctx, "endpoint_affine_coords in chart i",
+                    e, np.stack([chart_of(A, i), chart_of(B, i)], axis=-2))
+    if ok and i != 0:
+        ctx.label("pair-in-chart!=0")
+
+
+# ---------------------------------------------------------------------------
+@st.composite
 def auto_case(draw):
     n = draw(st.integers(1, 5))
     shape = draw(gen.shapes(max_rank=2))
@@ -438,6 +516,11 @@ def body_linmap(case, ctx):
     ctx.check(np.all(img.in_affine_chart(i)), "the chart is preserved")
     ctx.close("affine_linear_map acts as the linear map in the chart",
               img.affine_coords(chart_index=i), want, rtol=1e-12, atol=1e-13 * sc, scale=sc)
+    # lattice points given by integer-typed affine coordinates are mapped like any others
+    ai = np.rint(np.real(a) * 3).astype(np.int64)
+    ctx.close("affine_linear_map acts as the linear map on integer-typed points",
+              (T @ projective.Point(ai.copy(), chart_index=i)).affine_coords(chart_index=i),
+              (ai @ L) if cv is False else (ai @ L.T), rtol=1e-12, atol=1e-13 * sc * 3)
     # the origin of the chart is fixed
     o = projective.Point(np.zeros(n), chart_index=i)
     ctx.close("origin fixed", (T @ o).affine_coords(chart_index=i), np.zeros(n), atol=1e-14)
@@ -469,6 +552,16 @@ def body_translation(case, ctx):
     back = T.inv() @ img
     ctx.close("inverse translation", back.affine_coords(chart_index=i), a, rtol=1e-12,
               atol=1e-12)
+    # lattice points given by integer-typed affine coordinates move by t like any others
+    ai = np.rint(np.real(a) * 3).astype(np.int64)
+    Pi = projective.Point(ai.copy(), chart_index=i)
+    ctx.label("integer-typed-points")
+    ctx.close("affine_translation moves integer-typed points by t",
+              (T @ Pi).affine_coords(chart_index=i), ai + t, rtol=1e-12, atol=1e-13)
+    ctx.close("two translations by t/2 of integer-typed points add up",
+              (projective.affine_translation(t / 2, chart_index=i) @
+               (projective.affine_translation(t / 2, chart_index=i) @ Pi)).affine_coords(
+                   chart_index=i), ai + t, rtol=1e-12, atol=1e-13)
     # hyperplane at infinity of the chart is fixed pointwise
     d = np.insert(a, i, 0.0, axis=-1)
     if np.all(np.sum(np.abs(d), axis=-1) > 0):
@@ -1044,6 +1137,9 @@ LAWS = [
     Law("chart_roundtrip", roundtrip_case(), body_roundtrip, _nt, quick=300, thorough=1500,
         shards=(2, 6)),
     Law("outside_chart_iff_zero", outside_case(), body_outside, _nt, quick=250, thorough=1200,
+        shards=(1, 4)),
+    Law("pairs_and_polygons_in_charts", pair_polygon_case(), body_pair_polygon,
+        lambda l: "rank=0" not in l or "x0=zero" in l, quick=250, thorough=1200,
         shards=(1, 4)),
     Law("auto_chart", auto_case(), body_auto, _nt, quick=250, thorough=1200, shards=(1, 4)),
     Law("affine_linear_map", linmap_case(), body_linmap, _nt, quick=250, thorough=1200,
